@@ -126,8 +126,15 @@ func c13R6(p *core.Program, r *core.Report) {
 	}
 	ok := false
 	why := "no filepath.Join(<module>.Dir, PkgPath[len(<module>.Path):])"
+	// SourceDir itself, its literals, and the package's own helpers it calls
+	inSD := map[*core.Func]bool{}
+	for ff := range reachableFrom(p, sd) {
+		if ff.Pkg == sd.Pkg && (ff.Root() == sd || (ff.Root().Decl != nil && !ff.Root().Decl.Name.IsExported())) {
+			inSD[ff] = true
+		}
+	}
 	for _, ff := range p.Funcs() {
-		if ff.Root() != sd {
+		if !inSD[ff] {
 			continue
 		}
 		info := ff.Info()
@@ -177,6 +184,9 @@ func universeWriteScan(p *core.Program, r *core.Report, rule string, only map[*c
 		root := f.Root()
 		if only != nil && !only[root] {
 			continue
+		}
+		if constructionOnly(p, root, 0) {
+			continue // runs while Load builds the record (only ever called from the constructor)
 		}
 		if core.RelPkg(f.Pkg.PkgPath) != "pkg/types" || root.Decl == nil || root.Decl.Recv == nil {
 			continue
@@ -256,10 +266,8 @@ func c13R1(p *core.Program, r *core.Report) {
 	const rule = "R1"
 	r.Floor(rule, 3)
 	seen := map[string]bool{}
-	for _, f := range p.Funcs() {
-		if core.RelPkg(f.Pkg.PkgPath) != "pkg/types" {
-			continue
-		}
+	// over flattened units: a helper extracted from the constructor is seen with its arguments bound
+	for _, f := range pkgUnits(p, "pkg/types") {
 		info := f.Info()
 		ast.Inspect(f.Body, func(n ast.Node) bool {
 			if lit, ok := n.(*ast.FuncLit); ok && lit != f.Lit {
@@ -761,4 +769,32 @@ func c13R8(p *core.Program, r *core.Report) {
 	if n == 0 {
 		r.OK(rule, nil, "no caller writes to a table handed out by a loaded package", token.NoPos, "scan of stores/delete/clear on maps obtained from Package / Universe methods")
 	}
+}
+
+// constructionOnly: an unexported function or method that is never used as a value and whose every
+// static call site lies in the package-record constructor (newPkg), in Load, or in another
+// construction-only function: it cannot run once Load has returned.
+func constructionOnly(p *core.Program, f *core.Func, depth int) bool {
+	if f == nil || f.Decl == nil || f.Decl.Name.IsExported() || depth > 3 {
+		return false
+	}
+	obj := f.Obj()
+	if obj == nil || len(funcValueUses(p, obj)) > 0 {
+		return false
+	}
+	sites := 0
+	for _, cs := range allCalls(p) {
+		if cs.In.Body == nil || core.CalleeFunc(cs.In.Info(), cs.Call) != obj {
+			continue
+		}
+		sites++
+		caller := cs.In.Root()
+		if core.RelPkg(caller.Pkg.PkgPath) == "pkg/types" && caller.Decl != nil && (caller.Name == "newPkg" || caller.Name == "Load") {
+			continue
+		}
+		if caller == f || !constructionOnly(p, caller, depth+1) {
+			return false
+		}
+	}
+	return sites > 0
 }
